@@ -418,3 +418,78 @@ CLAIMS = {
         "note": _TB,
     },
 }
+
+
+# --------------------------------------------------------------------------
+# Amendments (session 3): rules added or made semantic after the second round
+# of seeded changes.  Applied to the texts above; a phrase that no longer
+# occurs is an error, so the amendments cannot silently rot.
+_AMEND = {
+    "C01": [("text", "the three-way slot search with its fall-through raise,",
+             "the slot search over two declared slots with its fall-through "
+             "raise (the first slot that decides wins),"),
+            ("note", "Loops are analysed per iteration (one child / one "
+             "value); the search loop of addValue through its break / else "
+             "exits.",
+             "Loops whose iterations are independent are analysed per "
+             "iteration (one child / one value); search loops that carry "
+             "state (a remembered wildcard candidate, a break, a for-else) "
+             "are analysed on two distinct representative elements in either "
+             "order.")],
+    "C02": [("text", "and that the schema datatype is applied last.",
+             "that the schema datatype is applied last; and that the "
+             "schema's defaults reach the key infos as written (presence of "
+             "the default attribute, text and key of <default>, order).")],
+    "C07": [("text", "the exit-status structure of validator.main.",
+             "that no position whose line number is None reaches an error "
+             "whose line number is order-compared; and, on the interpreted "
+             "paths of validator.main with the file loop run for two files, "
+             "that the status is 1 iff a load raised a configuration error, "
+             "else 0, with one message per failed load.")],
+    "C08": [("text", "that every DataConversionError carries the caught "
+             "exception, the converted value and a position.",
+             "that every DataConversionError carries the caught exception, "
+             "the converted value and a position; that no handler of the "
+             "parser overwrites the position of an error located in a nested "
+             "resource or by a handler below; that the text whose lines are "
+             "counted is the resource text as read; and that errors the "
+             "matcher raises about the line being added carry no position or "
+             "that line's position.")],
+    "C10": [("text", "and parser errors carry the locator.",
+             "and parser errors carry the locator; the name converters the "
+             "schema parser obtains from the registry accept exactly their "
+             "documented languages.")],
+    "C13": [("text", "has a fresh or builder-private receiver (one known "
+             "finding: F8, the shared AbstractType);",
+             "has a fresh or builder-private receiver, never an object read "
+             "back from an attribute of an already existing object (one "
+             "known finding: F8, the shared AbstractType);")],
+    "C16": [("text", "and that both sides normalise handler names with "
+             "basic-key.",
+             "that child matchers are given their parent's list and closing "
+             "a section moves no entries; that both sides normalise handler "
+             "names with basic-key and no item kind reads the handler "
+             "attribute otherwise.")],
+    "C17": [("text", "that every field the reader passes through "
+             "$-substitution is printed through the inverse escape;",
+             "that every field the schema-less reader (its own handler "
+             "overrides included) passes through $-substitution is printed "
+             "through an escape that doubles every '$' (pattern-based escapes "
+             "are decided on the pattern's syntax tree); that the reader "
+             "recognises the empty form on the header text as written;")],
+    "C18": [("text", "that the three fragment gates raise iff the fragment is "
+             "non-empty and pass on the defragmented URL;",
+             "that the three fragment gates raise iff the fragment is "
+             "non-empty and pass on the defragmented URL, and that an "
+             "%include target is normalised (gated) on every path;")],
+    "C20": [("text", "agreement between accepted style names and the style "
+             "table.",
+             "agreement between accepted style names and the style table; "
+             "for each of the four format style classes the placeholder "
+             "spellings and the usesTime/format method it effectively has "
+             "(own or inherited) against a reference for that style.")],
+}
+for _pid, _items in _AMEND.items():
+    for _field, _old, _new in _items:
+        assert _old in CLAIMS[_pid][_field], (_pid, _old)
+        CLAIMS[_pid][_field] = CLAIMS[_pid][_field].replace(_old, _new)
